@@ -10,7 +10,7 @@ import vlib
 
 PRED_PROP = {"C04": ("C04.",), "C05": ("C05.",), "C06": ("C06.",),
              # C16, cache level: "no cache write is forgotten by the eviction and expiration policies" when the write buffer overflows
-             "C16": ("C05.", "C04.bound", "C06.conservation", "C06.abnormal_end"),
+             "C16": ("C05.", "C04.bound", "C06.conservation", "C06.abnormal_end", "C16."),
              # C17, cache level: concurrent consumers of the read buffer (recorded reads stuck or delivered twice)
              "C17": ("C17.", "C05.abnormal_end"),
              # C07, concurrent form: no Overflow removal in a cache that never exceeds its maximum
@@ -35,7 +35,9 @@ def run_mc(work, tag, text, workers, timeout=3000):
 
 def scenarios(prop, quick, seed):
     n = 240 if quick else 2400
-    if prop in ("C16", "C17", "C07"):
+    if prop == "C16":
+        n = 96 if quick else 960
+    if prop in ("C17", "C07"):
         n = 48 if quick else 480
     out = []
     for j in range(n):
@@ -47,6 +49,9 @@ def scenarios(prop, quick, seed):
         if prop == "C16":
             # (with an InvalidateAll in half of them: it replays the buffered events itself before it discards the entries)
             sc = dict(base, size=["count", "weight", "count"][j % 3], max=2 + j % 4, wt=[1, 0, 2, 1, 3], smallbuf=1, stale=0, invall=[0, 1, 0, 2][j % 4])
+            if j % 2 == 0:
+                # one producer on one key with a same-goroutine executor: the order of its events is observable (C16.producer_order)
+                sc.update(writers=1, keys=1, syncexec=1, ops=14 + j % 5, policy="free", size="count", max=3, reads=0, oneprod=1)
         elif prop == "C17":
             sc = dict(base, size=["count", "none", "weight"][j % 3], max=3 + j % 4, wt=[1, 0, 2, 1, 3], smallbuf=0, stale=0, reads=1, expiry=1,
                       invall=2 + j % 3, policy="free", writers=3 + j % 2, ops=12 + j % 6, keys=2 + j % 3)
@@ -66,7 +71,7 @@ def scenarios(prop, quick, seed):
             sc = dict(base, size=["count", "none", "weight", "none"][j % 4], max=1 + j % 3, wt=[1, 2, 0, 1], syncexec=(j // 4) % 2)
             if sc["size"] == "none" and j % 8 == 1:
                 sc["expiry"] = 0       # no maintenance at all: the fast notification path
-        if sc["smallbuf"]:
+        if sc["smallbuf"] and not sc.get("oneprod"):
             sc["writers"], sc["ops"], sc["keys"] = 3 + j % 2, 8 + j % 4, 3 + j % 3
         if sc["stale"]:
             # room for several entries in one queue, so that a replaced node has neighbours
